@@ -831,9 +831,22 @@ def run_world(pid, case, mode="refine", handlers=None, on_step=None):
         oc = w.stats["outcomes"]
         oc[name + ":" + outcome] = oc.get(name + ":" + outcome, 0) + 1
         if mode == "refine":
-            w.compare_all(pid, op, outcome, exc, a)
+            if outcome == "reject" and exc is None:
+                # the library ACCEPTED a call the reference model refuses.  The statements only say that a call rejected
+                # with an exception leaves the state unchanged; what an accepted call of that kind does is not specified.
+                # If the state is unchanged the history goes on, otherwise it ends here without a verdict.
+                try:
+                    w.compare_all(pid, op, outcome, exc, a)
+                except Violation:
+                    w.probe("accepted_what_the_model_refuses")
+                    break
+            else:
+                w.compare_all(pid, op, outcome, exc, a)
             w.log.append([name, a, outcome, digest(model.content())])
         else:
+            if outcome == "reject" and exc is None:
+                w.probe("accepted_what_the_model_refuses")
+                break  # drive mode: no way to tell what the accepted call did - the history ends here without a verdict
             w.log.append([name, a, outcome, type(exc).__name__ if exc is not None else None])
         if on_step:
             on_step(w, a, op, outcome, exc)
